@@ -98,8 +98,21 @@ def run(chk, facts):
 
     # ---------------- R-C17-2 ----------------
     cv = syn.one_fn("convert_vec", mod="generate::convert::common")
-    s = src(cv["body"]).replace(" ", "")
-    ok = "forastinnode_vec{result.push(convert_node(ast,imp,state,ctx)?)" in s and "Ok(result)" in s and not re.search(r"\.(sort|rev|reverse|dedup|retain|filter|insert)\(", s)
+    # folded (rules/smalleval.py) over lists of 0..3 symbolic nodes with `convert_node` as a constructor: the result is the list of the
+    # converted nodes, in order; an error of an element is the error of the whole
+    from .smalleval import SmallEval as _SE, NoEval as _NE
+    ok = True
+    try:
+        local_cv = {f["name"]: f for f in syn.fns if f["mod"] == cv["mod"] and f.get("impl_of") is None and f.get("body")}
+        ev_cv = _SE(local_fns=local_cv, funcs={"convert_node": lambda a_, i_, s_, c_: ("Err", ("sym", "E")) if a_ == ("sym", "bad") else ("Ok", ("conv", a_, s_))})
+        for n_ in range(4):
+            nodes_ = [("sym", f"n{i}") for i in range(n_)]
+            r_ = ev_cv.call(cv, [("list", list(nodes_)), ("sym", "imp"), ("sym", "state"), ("sym", "ctx")])
+            ok = ok and r_ == ("Ok", ("list", [("conv", x_, ("sym", "state")) for x_ in nodes_]))
+        r_ = ev_cv.call(cv, [("list", [("sym", "n0"), ("sym", "bad"), ("sym", "n2")]), ("sym", "imp"), ("sym", "state"), ("sym", "ctx")])
+        ok = ok and isinstance(r_, tuple) and r_[0] == "Err" and not ev_cv.uncovered()
+    except _NE:
+        ok = False
     chk.ob("R-C17-2", "convert_vec", ok, "convert_vec pushes the converted elements in iteration order" if ok else "convert_vec no longer converts element by element in order", facts.loc_of(cv))
     try:
         arm = _arm(cd, "NodeTy::FunDef")
